@@ -72,6 +72,17 @@ AddStoich(c, n, st) ==  \* st : [flux name -> integer]; every key is a reaction 
                   [c.sur[s] EXCEPT !.st = [o \in DOMAIN c.sur[s].st |->
                         IF o \in DOMAIN st THEN Put(c.sur[s].st[o], n, M!Num(st[o])) ELSE c.sur[s].st[o]]]]]
 
+\* the library's first sanity check when it prepares a model for evaluation: every initial assignment, derived
+\* quantity, reaction and readout names as many arguments as its function takes (else every query raises
+\* ArityMismatchError, whatever else is wrong with the content)
+ArityCalls(c) ==
+    {[fn |-> c.der[d].fn, args |-> c.der[d].args] : d \in DOMAIN c.der}
+    \cup {[fn |-> c.rxn[r].fn, args |-> c.rxn[r].args] : r \in DOMAIN c.rxn}
+    \cup {[fn |-> c.ro[r].fn, args |-> c.ro[r].args] : r \in DOMAIN c.ro}
+    \cup {[fn |-> c.pars[p].fn, args |-> c.pars[p].args] : p \in M!IAPars(c)}
+    \cup {[fn |-> c.init[v].fn, args |-> c.init[v].args] : v \in M!IAVars(c)}
+ArityBad(c) == \E cl \in ArityCalls(c) : Len(cl.args) # FnArity[cl.fn]
+
 Eff1(op, c) ==
     CASE op.op = "add_parameter" ->
            IF Free(c, op.n) THEN Acc([c EXCEPT !.pars = Put(@, op.n, op.v)]) ELSE Rej(c)
@@ -85,6 +96,7 @@ Eff1(op, c) ==
                 THEN Acc([c EXCEPT !.pars = Put(@, op.n, M!Num(c.pars[op.n].v * op.f))])
                 \* an assignment-defined parameter is scaled from its (frozen) computed value, which
                 \* exists only if the model can be evaluated at all
+                ELSE IF ArityBad(c) THEN Rej(c)
                 ELSE IF M!WellFormed(c)
                      THEN Acc([c EXCEPT !.pars = Put(@, op.n, M!Num(M!InitEnv(c)[op.n] * op.f))])
                      ELSE Rej(c)
@@ -205,6 +217,7 @@ DataOK(c) ==
         ELSE M!SeqRange(cl.args) \cap DOMAIN c.data = {}
 
 Evaluable(c) ==
+    /\ ~ArityBad(c)
     /\ M!WellFormed(c)
     /\ DataOK(c)
     /\ CoefArgs(c) \cap DOMAIN c.data = {}
@@ -231,7 +244,8 @@ Obs(c) ==
                     init |-> M!InitialValues(c),
                     parvals |-> M!ParameterValues(c),
                     static |-> M!Static(c)]
-              ELSE [kind |-> IF M!WellFormed(c) THEN {"error"} ELSE M!OutcomeKinds(c)]]
+              ELSE [kind |-> IF ArityBad(c) THEN {"arity"}
+                             ELSE IF M!WellFormed(c) THEN {"error"} ELSE M!OutcomeKinds(c)]]
 
 \* scaling an assignment-defined parameter reads its computed value; when the content cannot be
 \* evaluated for reasons outside the dependency graph (a non-dsum function applied to a data set, ...)
@@ -270,6 +284,7 @@ CallMenu(n) ==
     {Call("two", <<>>)} \cup {Call("inc", <<a>>) : a \in NamesT \ {n}}
     \cup {Call("mul", <<a, b>>) : a \in Names \ {n}, b \in NamesT \ {n}}
     \cup {Call("inc", <<n>>)}                   \* self-reference: circular
+    \cup {Call("inc", <<Other(n), Other(n)>>)}  \* one argument too many: arity mismatch
 
 \* partial updates (function only / arguments only) keep the arity of the component as it is now
 SameArity(k) == CASE k = 0 -> {"one", "two"} [] k = 1 -> {"inc", "dbl", "neg"} [] k = 2 -> {"mul", "add"} [] OTHER -> {"mad"}
@@ -277,6 +292,8 @@ PartialMenu(tab, n) ==
     IF n \in DOMAIN tab
     THEN LET k == Len(tab[n].args)
          IN {Call(f, a) : f \in SameArity(k) \ {tab[n].fn}, a \in {[j \in 1..k |-> Other(n)], [j \in 1..k |-> IF j = 1 THEN "time" ELSE Other(n)]}}
+            \* a function-only / arguments-only update that changes the arity of one side only
+            \cup {Call(IF k = 2 THEN "inc" ELSE "mul", [j \in 1..(IF k = 2 THEN 1 ELSE 2) |-> Other(n)])}
     ELSE {Call("inc", <<Other(n)>>)}
 
 VarsOf(cc) == M!VarSet(cc)
@@ -338,7 +355,8 @@ SingularOps(cc) ==
                cl \in {NoCall, Call("inc", <<Other(n)>>)}, st \in StMenu(cc)}
       \cup {[op |-> "remove_reaction", n |-> n]}
       \cup (IF OpSet = "all" THEN
-              {[op |-> "add_readout", n |-> n, call |-> cl] : cl \in {Call("two", <<>>), Call("inc", <<Other(n)>>)}}
+              {[op |-> "add_readout", n |-> n, call |-> cl] :
+                   cl \in {Call("two", <<>>), Call("inc", <<Other(n)>>), Call("mul", <<Other(n)>>)}}
               \cup {[op |-> "remove_readout", n |-> n]}
               \cup {[op |-> "add_surrogate", n |-> n, sur |-> s] : s \in SurMenu(cc)}
               \cup {[op |-> "update_surrogate", n |-> n, keepargs |-> FALSE, args |-> <<a>>,
